@@ -128,3 +128,7 @@ func vhSprint(r interface{}) string {
 	}
 	return "panic"
 }
+
+func vEach(f func()) { f() }
+
+func vDump(name string, x interface{}) {}
